@@ -1003,6 +1003,11 @@ func gen(r *hx.Rng, n int, tier string) []string {
 		}
 		o := baseOp(r, step, seats)
 		ns := len(seats)
+		if ns > 250 && (step == "coord" || step == "coordh") && r.Chance(1, 2) {
+			// the leader holds the last seats: above 255 seats its sorted MemberIndex list starts
+			// with the wrapped indexes 0, 1
+			o.leader = 2
+		}
 		if r.Chance(1, 6) {
 			o.gs = hx.Pick(r, []int{0, maxI(0, ns-1), ns + 1, 256})
 		}
